@@ -284,3 +284,27 @@ Definition ozip {A B C : Type} (f : A -> B -> option C) (la : list A) (lb : list
   if Nat.eqb (length la) (length lb) then omap (fun p => f (fst p) (snd p)) (combine la lb) else None.
 Definition ozip2 {A B C : Type} (f : A -> B -> option C) (ma : list (list A)) (mb : list (list B))
   : option (list (list C)) := ozip (ozip f) ma mb.
+
+(* ---------------------------------------------------------------- whole 2-D float arrays (normalize_with_percentile) *)
+
+Definition mat2 := list (list xf).
+(* array (op) scalar *)
+Definition m2s (f : xf -> xf -> xf) (m : mat2) (s : xf) : mat2 := map (map (fun x => f x s)) m.
+(* np.minimum / np.maximum of two floats: NaN propagates *)
+Definition xminimum (a b : xf) : xf := if xisnan a || xisnan b then XNaN else xmin2 a b.
+Definition xmaximum (a b : xf) : xf := if xisnan a || xisnan b then XNaN else xmax2 a b.
+(* np.clip(m, lo, hi) = minimum(maximum(m, lo), hi) *)
+Definition np_clip2 (m : mat2) (lo hi : xf) : mat2 := map (map (fun x => xminimum (xmaximum x lo) hi)) m.
+(* np.min / np.max of an array: NaN as soon as an entry is NaN; the array must not be empty *)
+Fixpoint np_min1 (l : vec) : option xf :=
+  match l with
+  | [] => None
+  | x :: r => match np_min1 r with None => Some x | Some m => Some (xminimum x m) end
+  end.
+Fixpoint np_max1 (l : vec) : option xf :=
+  match l with
+  | [] => None
+  | x :: r => match np_max1 r with None => Some x | Some m => Some (xmaximum x m) end
+  end.
+Definition np_min2 (m : mat2) : option xf := np_min1 (concat m).
+Definition np_max2 (m : mat2) : option xf := np_max1 (concat m).
